@@ -75,6 +75,11 @@ M = [
  ('r2_apiack', 'semantic', 'lib/icinga/apiactions.cpp', 'if (timestamp <= Utility::GetTime())\n\t\t\treturn ApiActions::CreateResult(409, "Acknowledgement \'expiry\'', 'if (timestamp < Utility::GetTime())\n\t\t\treturn ApiActions::CreateResult(409, "Acknowledgement \'expiry\'', 'an expiry equal to now is accepted'),
  ('r2_apiack', 'harmless', 'lib/icinga/apiactions.cpp', '\tif (!service) {\n\t\tif (host->GetState() == HostUp)\n\t\t\treturn ApiActions::CreateResult(409, "Host " + checkable->GetName() + " is UP.");\n\t} else {\n\t\tif (service->GetState() == ServiceOK)\n\t\t\treturn ApiActions::CreateResult(409, "Service " + checkable->GetName() + " is OK.");\n\t}', '\tif (service && service->GetState() == ServiceOK)\n\t\treturn ApiActions::CreateResult(409, "Service " + checkable->GetName() + " is OK.");\n\n\tif (!service && host->GetState() == HostUp)\n\t\treturn ApiActions::CreateResult(409, "Host " + checkable->GetName() + " is UP.");', 'two guarded tests instead of if/else'),
  ('r2_cluster', 'semantic', 'lib/icinga/clusterevents.cpp', '\tif (checkable->IsAcknowledged()) {\n\t\tLog(LogWarning, "ClusterEvents")\n\t\t\t<< "Discarding \'acknowledgement set\' message for checkable', '\tif (false && checkable->IsAcknowledged()) {\n\t\tLog(LogWarning, "ClusterEvents")\n\t\t\t<< "Discarding \'acknowledgement set\' message for checkable', 'the cluster handler overwrites an existing acknowledgement'),
+ ('r2_dtstart', 'semantic', 'lib/icinga/downtime.cpp', 'TriggerDowntime(std::fmax(std::fmax(GetStartTime(), GetEntryTime()), checkable->GetLastStateChange()));', 'TriggerDowntime(std::fmax(GetStartTime(), GetEntryTime()));', 'a flexible downtime on a failing object no longer starts at the last state change'),
+ ('r2_dtstart', 'harmless', 'lib/icinga/downtime.cpp', 'if (GetFixed() && CanBeTriggered()) {\n\t\t/* Send notifications. */\n\t\tOnDowntimeStarted(this);', 'bool fixedNow = GetFixed();\n\n\tif (CanBeTriggered() && fixedNow) {\n\t\t/* Send notifications. */\n\t\tOnDowntimeStarted(this);', 'hoisted local, reordered conjuncts'),
+ ('r2_dtremove', 'semantic', 'lib/icinga/downtime.cpp', 'if (!config_owner.IsEmpty() && removalReason == DowntimeRemovedByUser) {', 'if (!config_owner.IsEmpty() && removalReason != DowntimeExpired) {', 'the owning ScheduledDowntime can no longer remove its downtime'),
+ ('r2_dtremove', 'harmless', 'lib/icinga/downtime.cpp', 'if (!downtime || downtime->GetPackage() != "_api")\n\t\treturn;', 'if (!downtime)\n\t\treturn;\n\n\tif (downtime->GetPackage() != "_api")\n\t\treturn;', 'one test per if'),
+ ('r2_dttimer', 'semantic', 'lib/icinga/downtime.cpp', 'if (downtime->IsActive() &&\n\t\t\tdowntime->CanBeTriggered() &&\n\t\t\tdowntime->GetFixed()) {', 'if (downtime->IsActive() &&\n\t\t\tdowntime->CanBeTriggered()) {', 'the start timer also triggers flexible downtimes'),
  ('is_child_of', 'unrecognised', 'lib/remote/zone.cpp', '\tZone::Ptr azone = this;\n', '\tZone::Ptr azone = GetParent();\n', 'call outside the binding environment: degrades'),
 ]
 
@@ -101,7 +106,7 @@ sh('git -C %s checkout -q .' % SCR)
 BASE = set(l for l in regen(SCR).splitlines() if l.startswith('xlate:') and 'not recognised' in l)     # fallbacks of the pristine tree
 rows = []
 for mid, kind, f, old, new, what in M:
-    if FILT and FILT not in mid: continue
+    if FILT and not any(x and x in mid for x in FILT.split(',')): continue
     sh('git -C %s checkout -q .' % SCR)
     p = os.path.join(SCR, f)
     src = open(p).read()
